@@ -155,7 +155,7 @@ def r3(ctx, R):
     R.check(ok, 'estimate_embedded_error_serial :: RK: end points computed first, estimate = |primary - embedded| (optionally relative to the primary)', f'{EE}:EstimateEmbeddedError.estimate_embedded_error_serial', 'compute_end_point(); abs(uend - u_secondary) [/ abs(uend)]', rets)
 
 
-@rule('C04', 'C04.R4', 'order-0 start: the spread predictor puts a copy of u0 and f(u0-copy, t_m) on every node; unknown initial guesses raise; Runge-Kutta sweepers start from zero stages and disable the residual tolerance', floor=4)
+@rule('C04', 'C04.R4', 'order-0 start: the spread predictor puts a copy of u0 and f(u0-copy, t_m) on every node; unknown initial guesses raise; Runge-Kutta sweepers start from zero stages and disable the residual tolerance', floor=8)
 def r4(ctx, R):
     repo = ctx.repo
     rel = 'pySDC/core/sweeper.py'
@@ -169,6 +169,17 @@ def r4(ctx, R):
     R.check(len(u) == 1 and len(f) == 1 and 'for i1=1..M' in u[0], 'Sweeper.predict :: spread: u_m = copy of u0, f_m = f(u_m, t_m) for every node', w, "L.u[m] = P.dtype_u(L.u[0]); L.f[m] = P.eval_f(L.u[m], t_m) if initial_guess == 'spread'", [g for g in got if 'spread' in g][:4])
     raises = [ast.unparse(s)[:80] for s in ast.walk(fn) if isinstance(s, ast.Raise)]
     R.check(any('ParameterError' in r for r in raises), 'Sweeper.predict :: an unknown initial_guess raises', w, 'else: raise ParameterError', raises)
+    # every other initial guess fills the SAME slots m = 1..M with a fresh object of its own
+    want_arms = {
+        'copy': ('L.u[i1] = +P.dtype_u(L.u[0]) for i1=1..M', 'L.f[i1] = +P.dtype_f(L.f[0]) for i1=1..M'),
+        'zero': ('L.u[i1] = +P.dtype_u(init=P.init, val=0.0) for i1=1..M', 'L.f[i1] = +P.dtype_f(init=P.init, val=0.0) for i1=1..M'),
+        'random': ('L.u[i1] = +P.dtype_u(init=P.init, val=self.rng.rand(1)[0]) for i1=1..M', 'L.f[i1] = +P.dtype_f(init=P.init, val=self.rng.rand(1)[0]) for i1=1..M'),
+    }
+    for guess, lines in want_arms.items():
+        arm = [g.split(' if ')[0] for g in got if g.endswith(f"self.params.initial_guess == '{guess}'")]
+        R.check(sorted(arm) == sorted(lines), f"Sweeper.predict :: initial guess '{guess}' fills u[m] and f[m] for every node m = 1..M with new objects", w, list(lines), arm)
+    f0 = [g for g in got if g.startswith('L.f[0] = ')]
+    R.check(f0 == ['L.f[0] = +P.eval_f(L.u[0], L.time)'], 'Sweeper.predict :: f(u0, t0) is evaluated for every initial guess', w, 'L.f[0] = P.eval_f(L.u[0], L.time)', f0)
     fn = repo.func(RK, 'RungeKutta.__init__')
     src = [ast.unparse(s) for s in walk_no_nested(fn) if isinstance(s, ast.Assign)]
     R.fn(f'{RK}:RungeKutta.__init__')
